@@ -5,6 +5,7 @@ package main
 // between a lookup helper and the case body does not matter.
 
 import (
+	"fmt"
 	"strings"
 
 	"golang.org/x/tools/go/ssa"
@@ -142,4 +143,160 @@ func checkRouter(w *World, r *Report, eSend *ssa.Function) {
 		r.Check(ok, "C17.R4", "streamRouter:forgets-writer", "on RemoteUnreachableEvent: delete(streams, ev.ListenAddr) on every path", site, "the router keeps the dead writer: every later message for that address dead-letters, no re-dial")
 		r.Check(len(eu) > 0, "C17.R4", "streamRouter:dispatch-unreachable", "the router has a case for RemoteUnreachableEvent", site, "RemoteUnreachableEvent is ignored by the router")
 	}
+}
+
+// checkCodec: C15.R8 — the serializer the writer is built with and the deserializer the reader is built
+// with belong to one codec family (proto.Marshal/proto.Unmarshal, or MarshalVT/UnmarshalVT), on every
+// path: what one side accepts the other can decode. And the active deserializer returns a message
+// created by this very call, never one that lives in package-level state (all inbound messages of a
+// type would be one object).
+func checkCodec(w *World, r *Report, rule string) {
+	// the concrete types stored into streamWriter.serializer / streamReader.deserializer
+	active := func(structName, field, method string) (*ssa.Function, string) {
+		named := w.Named("remote", structName)
+		if named == nil {
+			return nil, ""
+		}
+		var found *ssa.Function
+		tn := ""
+		for _, fn := range w.Funcs {
+			if !w.isLib(fn) || fnPkgPath(fn) != modPath+"/remote" {
+				continue
+			}
+			for _, b := range fn.Blocks {
+				for _, in := range b.Instrs {
+					st, ok := in.(*ssa.Store)
+					if !ok {
+						continue
+					}
+					fa, ok := st.Addr.(*ssa.FieldAddr)
+					if !ok || !isFieldOf(fa, named, field) {
+						continue
+					}
+					if mi, ok := st.Val.(*ssa.MakeInterface); ok {
+						if nt, _ := structOf(mi.X.Type()); nt != nil {
+							if m := w.Method("remote", nt.Obj().Name(), method); m != nil {
+								found, tn = m, nt.Obj().Name()
+							}
+						}
+					}
+				}
+			}
+		}
+		return found, tn
+	}
+	ser, serT := active("streamWriter", "serializer", "Serialize")
+	des, desT := active("streamReader", "deserializer", "Deserialize")
+	if ser == nil || des == nil {
+		r.Unknown(rule, "codec:active", "the serializer of the stream writer and the deserializer of the stream reader are concrete types of package remote", "-",
+			"could not resolve the value stored into streamWriter.serializer / streamReader.deserializer")
+		return
+	}
+	family := func(fn *ssa.Function, protoFn, vtMethod string) (usesProto, usesVT bool) {
+		for _, in := range w.insOf(fn) {
+			c := callOf(in)
+			if c == nil {
+				continue
+			}
+			if f := c.StaticCallee(); f != nil && f.String() == "google.golang.org/protobuf/proto."+protoFn {
+				usesProto = true
+			}
+			if c.IsInvoke() && c.Method.Name() == vtMethod {
+				usesVT = true
+			}
+		}
+		return
+	}
+	sp, sv := family(ser, "Marshal", "MarshalVT")
+	dp, dv := family(des, "Unmarshal", "UnmarshalVT")
+	ok := (sp || sv) && (dp || dv) && !(sp && sv) && !(dp && dv) && sp == dp
+	r.Check(ok, rule, "codec:same-family", "the writer's "+serT+".Serialize and the reader's "+desT+".Deserialize use one codec family on every path", w.fnPos(ser),
+		fmt.Sprintf("Serialize uses proto.Marshal=%v MarshalVT=%v, Deserialize uses proto.Unmarshal=%v UnmarshalVT=%v: the two codecs do not accept the same payloads (the generated marshal code skips validation the reflective unmarshal enforces), so a message the writer ships can end the peer's stream and take the rest of its batch with it", sp, sv, dp, dv))
+	// freshness of the decoded message
+	g := w.FGI(des)
+	fresh := true
+	detail := ""
+	for _, rc := range g.retCases() {
+		if len(rc.res) != 2 {
+			continue
+		}
+		if k, isK := rc.res[0].(*ssa.Const); isK && k.IsNil() {
+			continue
+		}
+		if src := w.fromPackageState(rc.res[0], 0, map[ssa.Value]bool{}); src != "" {
+			fresh, detail = false, "the returned message comes from "+src
+		}
+	}
+	r.Check(fresh, rule, "codec:fresh-message", "the active deserializer returns a message created by the call itself", w.fnPos(des),
+		detail+": every inbound message of that type is the same object, a later payload overwrites the ones delivered before")
+}
+
+// fromPackageState: v is (derived from) a value held in a package-level variable of the module: where from, else "".
+func (w *World) fromPackageState(v ssa.Value, depth int, seen map[ssa.Value]bool) string {
+	if v == nil || depth > 6 || seen[v] {
+		return ""
+	}
+	seen[v] = true
+	switch x := v.(type) {
+	case *ssa.Global:
+		if x.Pkg != nil && strings.HasPrefix(x.Pkg.Pkg.Path(), modPath) {
+			return "package variable " + x.Name()
+		}
+	case *ssa.UnOp:
+		return w.fromPackageState(x.X, depth+1, seen)
+	case *ssa.Lookup:
+		return w.fromPackageState(x.X, depth+1, seen)
+	case *ssa.Index:
+		return w.fromPackageState(x.X, depth+1, seen)
+	case *ssa.IndexAddr:
+		return w.fromPackageState(x.X, depth+1, seen)
+	case *ssa.FieldAddr:
+		return w.fromPackageState(x.X, depth+1, seen)
+	case *ssa.Field:
+		return w.fromPackageState(x.X, depth+1, seen)
+	case *ssa.Extract:
+		if c, ok := x.Tuple.(*ssa.Call); ok {
+			if f := c.Call.StaticCallee(); f != nil && w.inMod[f] && f.Blocks != nil {
+				fg := w.FG(f)
+				for _, rn := range fg.returns {
+					rs := fg.ins[rn].(*ssa.Return).Results
+					if x.Index < len(rs) {
+						if s := w.fromPackageState(rs[x.Index], depth+1, seen); s != "" {
+							return s + " (via " + fname(f) + ")"
+						}
+					}
+				}
+			}
+			return ""
+		}
+		return w.fromPackageState(x.Tuple, depth+1, seen)
+	case *ssa.Call:
+		if f := x.Call.StaticCallee(); f != nil && w.inMod[f] && f.Blocks != nil {
+			fg := w.FG(f)
+			for _, rn := range fg.returns {
+				rs := fg.ins[rn].(*ssa.Return).Results
+				if len(rs) > 0 {
+					if s := w.fromPackageState(rs[0], depth+1, seen); s != "" {
+						return s + " (via " + fname(f) + ")"
+					}
+				}
+			}
+		}
+		return ""
+	case *ssa.MakeInterface:
+		return w.fromPackageState(x.X, depth+1, seen)
+	case *ssa.ChangeInterface:
+		return w.fromPackageState(x.X, depth+1, seen)
+	case *ssa.ChangeType:
+		return w.fromPackageState(x.X, depth+1, seen)
+	case *ssa.TypeAssert:
+		return w.fromPackageState(x.X, depth+1, seen)
+	case *ssa.Phi:
+		for _, e := range x.Edges {
+			if s := w.fromPackageState(e, depth+1, seen); s != "" {
+				return s
+			}
+		}
+	}
+	return ""
 }
